@@ -30,14 +30,14 @@ for pid in ALL:
         "level_claimed": {
             "category": "other",
             "text": ("Static decision of a structural clause that is a necessary condition of the property (not the behaviour "
-                     "as a whole): " + r["clause"] + ". Decided for every path/branch of the anchored code on each run; "
+                     "as a whole): " + r["clause"] + ("; " + registry.EXTRA[pid] if pid in registry.EXTRA else "") + ". Decided for every path/branch of the anchored code on each run; "
                      "violations name the construct. Right level because the behaviour quantifies over numerical results "
                      "that no static argument bounds, while these clauses are visible in the shape of the code."),
             "design_ref": f"DESIGN.md §{r['ref']}",
         },
         "level_note": ("Trusted: Python semantics of the matched constructs, numpy/scipy primitives, no run-time "
                        "monkey-patching. Not decided: " + r["note"] + "."),
-        "technique": "static analysis: " + r["technique"],
+        "technique": "static analysis: " + r["technique"] + registry.EXTRA_TECHNIQUE,
     })
 
 manifest = {
